@@ -5,6 +5,18 @@ from pyvc import arrays, extio
 from contracts import common, initial_potential
 
 
+def add_obligations(chk):
+    """the proved part (linform per domain-cell configuration); also discharged by the C03 check, whose load vector consists of calls
+    of this routine (link (A2) of its composition)"""
+    eng = common.new_engine(initial_potential.contracts, "C08")
+    arrays.install(eng)
+    extio.install(eng)
+    initial_potential.install(eng)
+    verify_contracts(eng, [c for c in initial_potential.contracts if c.setup], chk)
+    from vlib import smt
+    smt.close_pool()
+
+
 def run(tier, seed):
     chk = Check("C08", tier, seed, "other", "./check C08 --tier " + tier)
     chk.explanation = ("Proved (ideal arithmetic, symbolic coordinates, horizontal and vertical segment x {touch first end, touch second end, "
@@ -13,13 +25,7 @@ def run(tier, seed):
                        "diam^2 (d - c), FPI_INV exactly once, and the a == 0 / a > 0 time-integrated kernel; exactly one identical cell. "
                        "Bounded: the digits against the closed forms of problems.py, additivity, linearity, evaluate.")
     chk.assume(*ENGINE_ASSUMPTIONS)
-    eng = common.new_engine(initial_potential.contracts, "C08")
-    arrays.install(eng)
-    extio.install(eng)
-    initial_potential.install(eng)
-    verify_contracts(eng, [c for c in initial_potential.contracts if c.setup], chk)
-    from vlib import smt
-    smt.close_pool()
+    add_obligations(chk)
     try:
         from bounded import potential_rel
         guarded(chk, 'bounded part potential_rel.run', potential_rel.run, chk, "C08", tier, seed)
